@@ -190,6 +190,14 @@ def big_documents(thorough=False):
         out.append(("bad-unexpected-indent-%d" % n, "Feature: f\n Scenario: s\n  Given x\n" + " " * n + "Examples:\n" + " " * n + "| a |\n" + "\t" * n + "nonsense\n"))
         out.append(("bad-many-errors-%d" % n, "Feature: f\n" + "".join(" Scenario: s%d\n  Given x\n  bad line %d\n" % (i, i) for i in range(n))))
         out.append(("bad-eof-in-docstring-%d" % n, "Feature: f\n Scenario: s\n  Given d\n   \"\"\"\n" + "x\n" * n))
+    for n in [3, 8, 15, 16, 17, 31, 32, 33, 64, 100]:
+        # wide examples tables whose values spell the placeholder of a later / an earlier column (substitution is column by column, in header order)
+        hdr = "".join(" c%02d |" % i for i in range(n))
+        fwd = "".join(" <c%02d> |" % (i + 1) if i + 1 < n else " end |" for i in range(n))
+        back = "".join(" <c%02d> |" % (i - 1) if i else " start |" for i in range(n))
+        plain = "".join(" v%d |" % i for i in range(n))
+        out.append(("wide-examples-chain-%d" % n, "Feature: f\n Scenario Outline: o <c00> <c%02d>\n  Given <c00> and <c01> and <c%02d>\n   | <c00> | <c%02d> |\n  Examples:\n   |%s\n   |%s\n   |%s\n   |%s\n" % (
+            n - 1, n - 1, n // 2, hdr, fwd, back, plain)))
     for n in [9, 10, 12, 16, 17, 24, 33, 40, 65]:
         for with_rows in ([1, 8], [1, n - 1], [n - 1, 0], [8, 3], [n - 2], list(range(0, n, 7)), [8, 9, 1]):
             blocks = []
